@@ -118,6 +118,7 @@ type Program struct {
 	NotAllowed bool // HandleMethodNotAllowed
 	CacheCap   int  // -1 off
 	PanicHook  bool // install an OnPanic hook (status 500)
+	Shared     map[int][]*MW // the application's middleware slice variables (passed whole or as mws[:k]... to groups)
 	Strict     bool // StrictLastSlash
 
 	// computed by Model()
@@ -293,11 +294,11 @@ func (p *Program) Build(extra ...func(*rux.Router)) *rux.Router {
 			return handlersOf(x.MW)
 		}
 		if s, ok := sharedSlices[x.SharedMW]; ok {
-			return s // the very same slice (and backing array) again
+			return s[:len(x.MW)] // the very same backing array again (all of it, or its first elements)
 		}
-		s := handlersOf(x.MW)
+		s := handlersOf(p.Shared[x.SharedMW])
 		sharedSlices[x.SharedMW] = s
-		return s
+		return s[:len(x.MW)]
 	}
 	var exec func(body []Stmt)
 	exec = func(body []Stmt) {
@@ -528,13 +529,22 @@ func (g *progGen) body(depth int, budget *int) []Stmt {
 		case x < 5 && depth < g.maxDepth:
 			g.nGroup++
 			gs := &GroupStmt{Prefix: fmt.Sprintf("/g%d", g.nGroup), MW: g.mws("G", g.maxMW)}
+			var useFirst *UseStmt
 			if chance(g.r, 1, 4) {
 				// middleware handed over as a slice variable that other groups get as well
 				id := 1 + g.r.IntN(2)
 				if g.sharedMW[id] == nil {
-					g.sharedMW[id] = append(g.mws("S", 1), g.mw("S"))
+					g.sharedMW[id] = append(append(g.mws("S", 1), g.mw("S")), g.mw("S"))
 				}
 				gs.MW, gs.SharedMW = g.sharedMW[id], id
+				if len(g.sharedMW[id]) >= 2 && chance(g.r, 1, 2) {
+					// only the first k elements of the variable are handed over (mws[:k]...): the rest of its
+					// backing array is spare capacity of the argument - and still the application's data
+					gs.MW = g.sharedMW[id][:1+g.r.IntN(len(g.sharedMW[id])-1)]
+					if chance(g.r, 1, 2) {
+						useFirst = &UseStmt{[]*MW{g.mw("u")}}
+					}
+				}
 			}
 			if g.dynamic && chance(g.r, 1, 8) {
 				gs.Prefix += "/{gid}" // a prefix with a path variable
@@ -554,6 +564,9 @@ func (g *progGen) body(depth int, budget *int) []Stmt {
 				g.curPrefix = ""
 			}
 			gs.Body = g.body(depth+1, budget)
+			if useFirst != nil {
+				gs.Body = append([]Stmt{*useFirst}, gs.Body...)
+			}
 			g.curPrefix = saved
 			out = append(out, gs)
 			if g.probes {
@@ -616,6 +629,7 @@ func GenProgram(r *rand.Rand, g *progGen) *Program {
 	budget := 14
 	p := &Program{CacheCap: -1, NotAllowed: chance(r, 1, 2), Strict: g.strict}
 	p.Body = g.body(0, &budget)
+	p.Shared = g.sharedMW
 	// make sure there is at least one route
 	hasRoute := false
 	var find func([]Stmt)
